@@ -172,3 +172,12 @@ def oracle(line, out):
 
 
 known_match = common.no_known
+
+
+def literal_ops(lit):
+    if lit <= 200:
+        yield "b58e " + hx(bytes(lit) or b"\x00")
+        yield "b58ce " + hx(bytes([lit % 256]) * max(1, lit % 40))
+    v = lit.to_bytes((lit.bit_length() + 7) // 8 or 1, "big")
+    yield "b58e " + hx(v)
+    yield "b58d " + sx(b58enc(v) or "1")
